@@ -161,6 +161,20 @@ def run(prog: Program, col: Collector, tier: str, refs: Optional[Refs] = None, c
     col.rule("R04.13", "slicing a concatenation: the part-local slice bounds select exactly the global indices start, start+step, ... that fall into the part", floor=1)
     _cat_slice_arithmetic(prog, col, refs, cat)
 
+    # ---------------------------------------------------------------- R04.14 (shared with C05: R05.2)
+    col.rule("R04.14", "every constructed term is alpha-mangled: all bound names get fresh names (capture avoidance of substituted values)", floor=6)
+    from . import c05
+    c05._mangle(prog, col, refs)
+
+    # ---------------------------------------------------------------- R04.15 (shared with C06: R06.10)
+    col.rule("R04.15", "the batch / event boundary of a tensor's array is computed from that tensor's own event rank", floor=2)
+    from . import c06
+    c06._boundary_of_own_tensor(prog, col, refs, cat)
+
+    # ---------------------------------------------------------------- R04.16
+    col.rule("R04.16", "substituting a ground value into a Delta matches only if ALL coordinates of the point are equal", floor=1)
+    _delta_match(prog, col, refs, cat)
+
     # ---------------------------------------------------------------- R04.3
     col.rule("R04.3", "Subs declares f's unsubstituted inputs plus the inputs of the substituted values", floor=3)
     si = require_func(prog, "funsor.terms::Subs.__init__")
@@ -965,3 +979,25 @@ def _cat_slice_arithmetic(prog: Program, col: Collector, refs: Refs, cat: Catalo
                       "(offsets from the start of the part): the slice of the concatenation picks elements that were not selected", f.loc(sl))
     else:
         col.ok(f"{f.fq}::slice arithmetic", f"{n_cases} combinations of (offset, part size, start, stop, step) on the grid: the part-local slice selects exactly the global selection", f.loc(sl))
+
+
+# ---------------------------------------------------------------------- R04.16
+def _delta_match(prog: Program, col: Collector, refs: Refs, cat: Catalogue):
+    """Delta(name, point, log_density)(name=value) with a ground value is log_density where value == point and -inf elsewhere.  For a
+    vector-valued point the elementwise comparison must be reduced over the event dimensions with `all`: `any` reports a match when a
+    single coordinate agrees."""
+    f = prog.funcs.get("funsor.delta::Delta.eager_subs")
+    if f is None:
+        raise AnalysisError("anchor Delta.eager_subs not found")
+    n = 0
+    for c in ast.walk(f.node):
+        if isinstance(c, ast.Call) and isinstance(c.func, ast.Attribute) and c.func.attr in ("all", "any") and isinstance(c.func.value, ast.Compare) \
+                and len(c.func.value.ops) == 1 and isinstance(c.func.value.ops[0], (ast.Eq, ast.NotEq)):
+            n += 1
+            eq = isinstance(c.func.value.ops[0], ast.Eq)
+            good = (c.func.attr == "all") == eq      # (a == b).all()  or  not (a != b).any() style handled by the caller
+            col.check(good, f"{f.fq}::{norm(c)}", "the coordinates are compared with == and reduced with all",
+                      f"`{norm(c)}` reduces the coordinate-wise comparison with `{c.func.attr}`: a value that agrees with the point in one coordinate only is treated as a hit "
+                      "(the substituted Delta returns its density instead of -inf)", f.loc(c))
+    if n == 0:
+        raise AnalysisError("Delta.eager_subs: no reduced coordinate-wise comparison found")
